@@ -33,6 +33,11 @@ struct RefTree {
     levels: Vec<Vec<Hash>>, // levels[0] = padded leaf hashes
 }
 
+/// Root of an all-empty subtree of the given height, as 32 bytes (reference computation).
+pub fn empty_root_bytes(height: usize) -> [u8; 32] {
+    wincode::serialize(&RefTree::empty_root(height)).expect("ser").try_into().expect("32 bytes")
+}
+
 impl RefTree {
     fn new(leaves: &[Vec<u8>]) -> Self {
         let mut height = 0;
